@@ -297,6 +297,7 @@ pub fn minimise(rf: &ReplayFile, execs: u64, secs: f64) -> (ReplayFile, u64) {
         n_nonzero: r.trace.iter().filter(|d| d.pick != 0).count(),
         stale_sites: st.stale.clone(),
         markers: st.markers.clone(),
+        rng_seed: None,
         case: st.case.clone(),
         picks,
     };
